@@ -431,7 +431,10 @@ def run(ctx):
     nexh = 5 if ctx.quick else len(tiny)
     done = 0
     for spec in tiny:
-        if done >= nexh: break
+        # quick: at least 5 tiny samplers and (so that the workload does not depend on the seed's draw) at least
+        # ~6000 evaluated cases, at most 12 samplers
+        if ctx.quick and done >= 12: break
+        if done >= nexh and (not ctx.quick or ctx.evaluations >= 6000): break
         b = _build(ctx, spec, rng)
         if b is None or b.nsites > 8: continue
         nfree = b.nsites - (1 if b.vacancy >= 0 else 0)
